@@ -3,7 +3,7 @@
 From Coq Require Import List NArith ZArith Bool.
 Import ListNotations.
 From Emu.Common Require Import Bytes Str.
-From Emu.GCS Require Import Model.
+From Emu.GCS Require Import Model Wire.
 
 Fixpoint list_eqb {A} (e : A -> A -> bool) (a b : list A) : bool :=
   match a, b with
@@ -47,7 +47,7 @@ Fixpoint first_diff (i : N) (a b : list resp) : option N :=
   end.
 
 Definition check_case (c : list req * list resp) : option N :=
-  first_diff 0 (run_canon (fst c)) (snd c).
+  first_diff 0 (run_canon (map sanitize (fst c))) (snd c).    (* requests pass the name check first (Wire.v) *)
 
 Fixpoint check_all_from (i : N) (cs : list (list req * list resp)) : list (N * N) :=
   match cs with
